@@ -83,6 +83,9 @@ struct Job {
     k: usize,
     w: usize,
     d: usize,
+    /// large-k mode: alphabet of k+2 letters (codes generated), stream = fill 0..k then every
+    /// continuation up to `len` over the whole alphabet
+    big: Option<Vec<u64>>,
     codes: [u64; 4],
     collision_free: bool,
     len: usize,
@@ -90,15 +93,19 @@ struct Job {
 }
 
 fn run_job(j: &Job) -> (u64, u64, Vec<Viol>) {
-    let letters: Vec<El> = (0..4).map(|i| El { id: i as u8, code: j.codes[i] }).collect();
+    let letters: Vec<El> = match &j.big {
+        None => (0..4).map(|i| El { id: i as u8, code: j.codes[i] }).collect(),
+        Some(codes) => codes.iter().enumerate().map(|(i, &c)| El { id: i as u8, code: c }).collect(),
+    };
+    let nl = letters.len();
     #[derive(Clone)]
     struct St {
         heap: CMSHeap<El>,
         twin: CountMinSketch<El>,
-        truth: [u64; 4],
+        truth: Vec<u64>,
         e: u64,
     }
-    let init = St { heap: CMSHeap::new(j.k, CountMinSketch::with_params(j.w, j.d)), twin: CountMinSketch::with_params(j.w, j.d), truth: [0; 4], e: 0 };
+    let init = St { heap: CMSHeap::new(j.k, CountMinSketch::with_params(j.w, j.d)), twin: CountMinSketch::with_params(j.w, j.d), truth: vec![0; nl], e: 0 };
     let mut nodes = 0u64;
     let mut cmp = 0u64;
     let mut viols: Vec<Viol> = vec![];
@@ -106,7 +113,7 @@ fn run_job(j: &Job) -> (u64, u64, Vec<Viol>) {
         if hist.len() == j.len {
             return;
         }
-        for l in 0..4u8 {
+        for l in 0..letters.len() as u8 {
             let mut s = st.clone();
             hist.push(l);
             *nodes += 1;
@@ -116,7 +123,7 @@ fn run_job(j: &Job) -> (u64, u64, Vec<Viol>) {
                 Ok(()) => {
                     s.twin.add(&letters[l as usize]);
                     s.truth[l as usize] += 1;
-                    for x in 0..4 {
+                    for x in 0..letters.len() {
                         let est = s.twin.query_point(&letters[x]) as u64;
                         s.e = s.e.max(est.saturating_sub(s.truth[x]));
                     }
@@ -135,11 +142,11 @@ fn run_job(j: &Job) -> (u64, u64, Vec<Viol>) {
                     } else if s.heap.is_empty() {
                         bad = Some(("is_empty".into(), "is_empty() after an add".into()));
                     } else {
-                        for x in 0..4usize {
+                        for x in 0..letters.len() {
                             if s.truth[x] > 0 && !res.contains(&(x as u8)) {
                                 *cmp += 1;
                                 let lim = s.truth[x].saturating_sub(s.e);
-                                let others = (0..4).filter(|&y| y != x && s.truth[y] >= lim).count();
+                                let others = (0..letters.len()).filter(|&y| y != x && s.truth[y] >= lim).count();
                                 if others < j.k {
                                     bad = Some(("missing heavy element".into(), format!("element {} (true {}) is missing although only {} other elements have true count >= {} - E (E = {}); truth {:?}, result {:?}", x, s.truth[x], others, s.truth[x], s.e, s.truth, res)));
                                 }
@@ -169,12 +176,29 @@ fn run_job(j: &Job) -> (u64, u64, Vec<Viol>) {
             hist.pop();
         }
     }
+    let mut init = init;
+    let mut prefix: Vec<u8> = vec![];
+    if j.big.is_some() {
+        // fill the heap with k distinct letters first (checked like any other prefix by the oracle
+        // of the first continuation step)
+        for l in 0..j.k {
+            init.heap.add(letters[l].clone());
+            init.twin.add(&letters[l]);
+            init.truth[l] += 1;
+            prefix.push(l as u8);
+        }
+    }
     // iterative deepening: the first counterexample found is a shortest one
     for len in 1..=j.len {
         let jj = Job { len, ..j.clone() };
         nodes = 0;
         cmp = 0;
         rec(&init, &mut vec![], &jj, &letters, &mut nodes, &mut cmp, &mut viols);
+        for v in viols.iter_mut() {
+            if !prefix.is_empty() {
+                v.replay["stream_prefix(fill)"] = json!(prefix);
+            }
+        }
         if !viols.is_empty() {
             break;
         }
@@ -200,11 +224,36 @@ fn main() {
                     cs[i] = codes[x % nclass];
                     x /= nclass;
                 }
-                jobs.push(Job { k, w, d, codes: cs, collision_free: false, len, label: format!("k={},{}x{},classes={:?}", k, w, d, (0..4).map(|i| { let mut y = a; for _ in 0..i { y /= nclass; } y % nclass }).collect::<Vec<_>>()) });
+                jobs.push(Job { k, w, d, big: None, codes: cs, collision_free: false, len, label: format!("k={},{}x{},classes={:?}", k, w, d, (0..4).map(|i| { let mut y = a; for _ in 0..i { y /= nclass; } y % nclass }).collect::<Vec<_>>()) });
             }
         }
         let cf = collision_free_codes(64, 4);
-        jobs.push(Job { k, w: 64, d: 4, codes: [cf[0], cf[1], cf[2], cf[3]], collision_free: true, len: if thorough { 11 } else { 9 }, label: format!("k={},64x4 collision-free", k) });
+        jobs.push(Job { k, w: 64, d: 4, big: None, codes: [cf[0], cf[1], cf[2], cf[3]], collision_free: true, len: if thorough { 11 } else { 9 }, label: format!("k={},64x4 collision-free", k) });
+    }
+    // large k: the ordered index becomes a multi-level tree (>= 12 entries)
+    for k in if thorough { vec![12usize, 13, 16, 25] } else { vec![12usize, 16] } {
+        for (w, d, cf) in [(4096usize, 4usize, true), (2, 2, false)] {
+            let n = k + 2;
+            let codes: Vec<u64> = if cf {
+                // pairwise different positions in every row
+                let mut codes: Vec<u64> = vec![];
+                let mut pos: Vec<Vec<usize>> = vec![];
+                for code in 0..1_000_000u64 {
+                    let p = positions(w, d, code);
+                    if pos.iter().all(|q| q.iter().zip(p.iter()).all(|(a, b)| a != b)) {
+                        pos.push(p);
+                        codes.push(code);
+                        if codes.len() == n {
+                            break;
+                        }
+                    }
+                }
+                codes
+            } else {
+                (0..n as u64).collect()
+            };
+            jobs.push(Job { k, w, d, big: Some(codes), codes: [0; 4], collision_free: cf, len: if thorough { 4 } else { 3 }, label: format!("k={},{}x{},alphabet {} letters after filling the heap", k, w, d, n) });
+        }
     }
     let res = par_map(&jobs, n_threads(), run_job);
     let (mut nodes, mut cmp) = (0u64, 0u64);
